@@ -507,6 +507,50 @@ def _copy(node):
     return new
 
 
+def _simplify_iteration(stmts, temps):
+    """one unrolled iteration: fold `if <constant>` and write out the per-iteration temporaries
+    (`op = np.add; op = wrap(op); self.add = f(op)` -> `self.add = f(wrap(np.add))`); returns the statements unchanged
+    when that is not possible exactly"""
+    flat = []
+
+    def fold(ss):
+        for st in ss:
+            if isinstance(st, ast.If):
+                v = _const_truth(st.test)
+                if v is None:
+                    return False
+                if not fold(st.body if v else st.orelse):
+                    return False
+            elif isinstance(st, ast.Pass):
+                continue
+            else:
+                flat.append(st)
+        return True
+
+    if not fold(stmts):
+        return stmts
+    env, out = {}, []
+    for i, st in enumerate(flat):
+        if env:
+            st = _Subst(env).visit(st)
+        if isinstance(st, ast.Assign) and len(st.targets) == 1 and isinstance(st.targets[0], ast.Name) and st.targets[0].id in temps:
+            nm = st.targets[0].id
+            # uses until the next assignment of the same temporary
+            uses = 0
+            for later in flat[i + 1 :]:
+                uses += sum(1 for y in ast.walk(later.value if isinstance(later, ast.Assign) and len(later.targets) == 1 and isinstance(later.targets[0], ast.Name) and later.targets[0].id == nm else later) if isinstance(y, ast.Name) and y.id == nm and isinstance(y.ctx, ast.Load))
+                if isinstance(later, ast.Assign) and any(isinstance(t, ast.Name) and t.id == nm for t in later.targets):
+                    break
+            if _is_ref(st.value) or _is_literal(st.value) or (uses == 1 and not any(isinstance(y, (ast.Lambda, ast.Yield, ast.Await, ast.NamedExpr)) for y in ast.walk(st.value))):
+                env[nm] = st.value
+                continue
+            env.pop(nm, None)
+        elif any(isinstance(y, ast.Name) and not isinstance(y.ctx, ast.Load) and y.id in env for y in ast.walk(st)):
+            return stmts
+        out.append(st)
+    return out
+
+
 def _unroll_table_loops(scope, module_tables, count):
     """scope: a FunctionDef or the Module"""
     local_tables = _once_bound_literals(scope.body, scope) if not isinstance(scope, ast.Module) else {}
@@ -567,12 +611,17 @@ def _unroll_table_loops(scope, module_tables, count):
                     used_outside = any(isinstance(y, ast.Name) and y.id in names and id(y) not in inside and not _rebound_by_own_loop(y, scope, parents) for y in ast.walk(scope))
                     shapes_ok = all((len(names) == 1) or (isinstance(r, (ast.Tuple, ast.List)) and len(r.elts) == len(names)) for r in rows)
                     if not captured and not rebinds and not used_outside and shapes_ok:
+                        # names assigned in the body and read nowhere outside the loop are per-iteration temporaries
+                        assigned = {y.id for b in st.body for y in ast.walk(b) if isinstance(y, ast.Name) and not isinstance(y.ctx, ast.Load)}
+                        temps = {t for t in assigned if not any(isinstance(y, ast.Name) and y.id == t and id(y) not in inside for y in ast.walk(scope))}
                         for r in rows:
                             mapping = {names[0]: r} if len(names) == 1 else dict(zip(names, r.elts))
+                            it_stmts = []
                             for b in st.body:
                                 nb = _Subst(mapping).visit(_copy(b))
                                 ast.copy_location(nb, st)
-                                out.append(nb)
+                                it_stmts.append(nb)
+                            out.extend(_simplify_iteration(it_stmts, temps))
                         count["K8"] = count.get("K8", 0) + 1
                         continue
             out.append(st)
